@@ -1,8 +1,186 @@
 import Driver.Proto
-namespace Driver.C09
+import AdaptaVerif.Model.Scanline
+import AdaptaVerif.Check.Rects
+/-!
+Driver mode `c09` (see harness/c09.cpp for the line format).
 
-def run (_args : List String) : IO UInt32 := do
-  IO.eprintln "driver mode c09: not implemented yet"
-  return 2
+(a) constraint generation, three modes (cy = generateYConstraints, cx0/cx1 =
+    generateXConstraints without / with neighbour lists):
+    * tie-free input (all scan-line keys distinct, no two order-relevant events at one position):
+      the implementation's constraint multiset must equal the model's exactly → else DIVERGE;
+    * always (spec-determined, independent of heap addresses and of qsort's handling of equal
+      events): the implementation's constraint set must be acyclic (ordering witness checked by
+      `acyclicBy`); for cy/cx0 every pair whose scan extents meet must be joined by a chain of
+      constraints whose gaps cover the half sizes (`sepCert`, sound by Props.C09.sepCert_sound)
+      → else SPECFAIL.
+(b) removeoverlaps output: SPECFAIL on an escaped exception, non-finite coordinates, border
+    globals not restored, width/height changed, an overlap of more than 1e-6 in both axes, or a
+    fixed rectangle moved by ≥ 1% of the average rectangle size.
+-/
+namespace Driver.C09
+open Driver AdaptaVerif.Num AdaptaVerif.Model.Scanline AdaptaVerif.Check.Rects
+
+def conLt (a b : Con) : Bool :=
+  a.l < b.l || (a.l == b.l && (a.r < b.r || (a.r == b.r && a.gap < b.gap)))
+
+def sortCons (cs : List Con) : Array Con := cs.toArray.qsort conLt
+
+def showCon (c : Con) : String := s!"({c.l},{c.r},{ratToString c.gap})"
+
+/-- first element of the sorted difference, for the message -/
+def firstDiff (a b : Array Con) : String := Id.run do
+  let m := min a.size b.size
+  for i in [0:m] do
+    if a[i]! != b[i]! then return s!"at {i}: impl {showCon a[i]!} model {showCon b[i]!}"
+  return s!"sizes impl {a.size} model {b.size}"
+
+def parseRects (ls : Array (Array String)) : Option (Array Rect) :=
+  ls.mapM fun (l : Array String) => do
+    let v ← nums? (l.extract 0 4)
+    if v.size < 4 then none else some ⟨v[0]!, v[1]!, v[2]!, v[3]!⟩
+
+def parseCons (ls : Array (Array String)) : Option (List Con) :=
+  (ls.mapM fun (l : Array String) => do
+    if l.size < 3 then none
+    let g ← num? l[2]!
+    some (Con.mk (nat! l[0]!) (nat! l[1]!) g)).map Array.toList
+
+def pair? (c : Case) (key : String) : Option (Rat × Rat) := do
+  let l ← c.get1 key
+  let v ← nums? (l.extract 0 2)
+  if v.size < 2 then none else some (v[0]!, v[1]!)
+
+inductive Mode | cy | cx0 | cx1 deriving BEq
+def Mode.key : Mode → String | .cy => "cy" | .cx0 => "cx0" | .cx1 => "cx1"
+
+structure Acc where
+  verdict : Verdict := .ok
+  stats : List (String × Nat) := []
+
+def Acc.bump (a : Acc) (k : String) (n : Nat := 1) : Acc := { a with stats := bumpStats a.stats k n }
+/-- keep the most severe verdict: SPECFAIL > DIVERGE > OK; first message of a kind wins -/
+def Acc.fail (a : Acc) (v : Verdict) : Acc :=
+  match a.verdict, v with
+  | .specfail _, _ => a
+  | _, .specfail m => { a with verdict := .specfail m }
+  | .diverge _, _ => a
+  | _, v => { a with verdict := v }
+
+def checkGen (acc : Acc) (c : Case) (rs : Array Rect) (gbx gby : Rat) (mode : Mode) : Acc := Id.run do
+  let n := rs.size
+  let key := mode.key
+  let ax := if mode == .cy then yAxis rs gbx gby else xAxis rs gbx gby
+  let nl := mode == .cx1
+  let mut acc := acc
+  let some impl := parseCons (c.get key) | return acc.fail (.diverge s!"{key}: unparsable constraint line")
+  match (c.get "gdone").find? (fun l => l[0]? == some key) with
+  | none => return acc.fail (.diverge s!"{key}: generator did not finish")
+  | some l => if nat! (l[1]?.getD "0") != impl.length then return acc.fail (.diverge s!"{key}: count mismatch")
+  -- model with the default parameters: rank = index, stable event order
+  let lt := keyLt ax id
+  let evs := sortEvents ax n
+  let model := if nl then scanNL ax lt evs [] SMap.empty SMap.empty
+               else scanPtr ax lt evs [] PMap.empty PMap.empty
+  let si := sortCons impl
+  let sm := sortCons model
+  let same := si == sm
+  let tf := tieFree ax n nl
+  acc := acc.bump s!"{key}.constraints" impl.length
+  if tf then
+    acc := acc.bump s!"{key}.tiefree.strict"
+    if !same then acc := acc.fail (.diverge s!"{key}: tie-free input, constraint multiset differs from model: {firstDiff si sm}")
+  else
+    acc := acc.bump (if same then s!"{key}.ties.sameAsDefaultModel" else s!"{key}.ties.otherTieBreak")
+  -- spec-determined facts, on the implementation's constraints
+  match topoPos n impl with
+  | none => acc := acc.fail (.specfail s!"{key}: generated constraint graph is cyclic (or names a variable ≥ n)")
+  | some pos =>
+    let posf := fun i => pos.getD i 0
+    if !acyclicBy posf impl then
+      acc := acc.fail (.specfail s!"{key}: ordering witness rejected (cyclic constraint graph)")
+    else if nl then
+      if !gapsExact ax impl then acc := acc.fail (.diverge s!"{key}: a gap differs from half the two widths")
+    else
+      let masks := reachMasks n impl pos
+      if !sepCert ax n impl posf masks then
+        if !gapsCover ax impl then
+          acc := acc.fail (.specfail s!"{key}: a constraint's gap is smaller than half the two lengths")
+        else match firstUnchained ax n masks with
+          | some (u, v) => acc := acc.fail (.specfail s!"{key}: rectangles {u} and {v} meet in the sweep dimension but no chain of generated constraints separates them")
+          | none => acc := acc.fail (.specfail s!"{key}: separation certificate rejected")
+      else if !gapsExact ax impl then
+        acc := acc.fail (.diverge s!"{key}: a gap differs from half the two lengths")
+  return acc
+
+def grow (r : Rect) (bx b : Rat) : Rect := ⟨r.minX - bx, r.maxX + bx, r.minY - b, r.maxY + b⟩
+
+def checkRemove (acc : Acc) (c : Case) (rs : Array Rect) : Acc := Id.run do
+  let n := rs.size
+  let mut acc := acc
+  let some (rbx, rby) := pair? c "rb" | return acc.fail (.diverge "rb line missing")
+  match c.get1 "ro" with
+  | none => return acc.fail (.diverge "ro line missing")
+  | some l =>
+    if l[0]? != some "ok" then
+      return acc.fail (.specfail s!"removeoverlaps: exception escaped ({" ".intercalate l.toList})")
+  -- borders restored
+  match c.get1 "ba" with
+  | none => return acc.fail (.diverge "ba line missing")
+  | some l =>
+    match dbl? (l[0]?.getD ""), dbl? (l[1]?.getD "") with
+    | some (.fin _ bx), some (.fin _ b) =>
+      if bx != rbx || b != rby then
+        return acc.fail (.specfail s!"removeoverlaps: borders not restored: ({ratToString bx},{ratToString b}) ≠ ({ratToString rbx},{ratToString rby})")
+    | _, _ => return acc.fail (.specfail "removeoverlaps: border globals not finite afterwards")
+  let outs := c.get "o"
+  if outs.size != n then return acc.fail (.diverge "o lines missing")
+  let some out := parseRects outs | return acc.fail (.specfail "removeoverlaps: non-finite coordinate in the output")
+  -- sizes
+  if !sizesKept rs out 0 then
+    acc := acc.bump "ro.size.notBitIdentical"
+    if !sizesKept rs out (1 / 1000000000) then
+      return acc.fail (.specfail "removeoverlaps: a width or height changed (by more than 1e-9)")
+  else acc := acc.bump "ro.size.bitIdentical"
+  -- overlaps (bordered rectangles, as seen through the getters)
+  let grown := out.map (grow · rbx rby)
+  match findOverlap grown (1 / 1000000) with
+  | some (i, j) => return acc.fail (.specfail s!"removeoverlaps: rectangles {i} and {j} still overlap (both axes > 1e-6)")
+  | none => pure ()
+  -- fixed rectangles
+  let fixed := ((c.get1 "fixed").getD #[]).map nat!
+  let total : Rat := rs.foldl (fun s r => s + ((r.maxX - r.minX) + (r.maxY - r.minY)) / 2) 0
+  let avg : Rat := if n == 0 then 0 else total / n
+  for f in fixed do
+    let a := rectAt rs f
+    let b := rectAt out f
+    let dx := absRat ((b.minX + b.maxX) / 2 - (a.minX + a.maxX) / 2)
+    let dy := absRat ((b.minY + b.maxY) / 2 - (a.minY + a.maxY) / 2)
+    if dx * 100 ≥ avg || dy * 100 ≥ avg then
+      return acc.fail (.specfail s!"removeoverlaps: fixed rectangle {f} moved by ({(dx * 1000000).floor}e-6,{(dy * 1000000).floor}e-6), average size {(avg * 1000).floor}e-3")
+  if fixed.size > 0 then acc := acc.bump "ro.withFixed"
+  if (c.get1 "third").bind (·[0]?) == some "1" then acc := acc.bump "ro.thirdPass"
+  if rbx != 0 || rby != 0 then acc := acc.bump "ro.userBorder"
+  if (findOverlap (rs.map (grow · rbx rby)) 0).isSome then acc := acc.bump "ro.hadOverlap"
+  return acc
+
+def sizeBucket (n : Nat) : String :=
+  if n ≤ 3 then "n.1-3" else if n ≤ 12 then "n.4-12" else if n ≤ 60 then "n.13-60"
+  else if n ≤ 150 then "n.61-150" else "n.151-400"
+
+def checkCase (c : Case) : CaseResult := Id.run do
+  let some rs := parseRects (c.get "r") | return { verdict := .diverge "unparsable rectangle" }
+  let n := nat! (((c.get1 "n").getD #["0"])[0]!)
+  if rs.size != n then return { verdict := .diverge "rectangle count mismatch" }
+  let some (gbx, gby) := pair? c "gb" | return { verdict := .diverge "gb line missing" }
+  let mut acc : Acc := {}
+  acc := acc.bump (sizeBucket n)
+  acc := checkGen acc c rs gbx gby .cy
+  acc := checkGen acc c rs gbx gby .cx0
+  acc := checkGen acc c rs gbx gby .cx1
+  acc := checkRemove acc c rs
+  let nontrivial := (acc.stats.any fun (k, v) => k == "ro.hadOverlap" && v > 0)
+  return { verdict := acc.verdict, nontrivial := nontrivial, stats := acc.stats }
+
+def run (_args : List String) : IO UInt32 := runCases checkCase
 
 end Driver.C09
